@@ -7,8 +7,8 @@
     fibers `_makeFiber` builds (fiber.py:2600-2660);
   * `Fiber.uncompress` / `Fiber._fillempty` (fiber.py:2887-2961) AS WRITTEN (after fix
     cc544e6): the union with a dense "shape fiber", and the walk down `payloads[0]` to find
-    the leaf default, which now stops at a fiber without payloads and takes THAT fiber's
-    default (for a tensor-owned non-leaf fiber: the rank's default, the class `Fiber`);
+    the leaf default, which stops at a fiber without payloads and takes that fiber's default
+    (free fiber) or the default of the owning tensor's last rank (fix ecc4474);
   * `Fiber.fiber2dict` / `Fiber.dict2fiber` / `Payload.payload2dict`
     (fiber.py:4825-4914, payload.py:669-684), `Tensor.dump` / `Tensor.parse` /
     `Tensor.fromYAMLfile` (tensor.py:219-247, 1944-2025), `Fiber.__eq__`;
@@ -131,22 +131,23 @@ variable {ν : Type}
 /-- `Fiber(coords=range(n), initial=1)` -/
 def rangeFib (n : Nat) : Fib Nat Unit := (List.range n).map (fun c => (c, ()))
 
-/-- `_fillempty`'s leaf default (after fix cc544e6):
-    `f = self; while len(f.payloads) > 0 and isinstance(f.payloads[0], Fiber): f = f.payloads[0]`
-    and then `Payload.get(f.getDefault())`.  The descent stops at the leaf level (default
-    `dflt`) or at a fiber without payloads ABOVE the leaf level; there `getDefault()` is the
-    fiber's own default for a free fiber (`dflt`: `_makeFiber` / `fromUncompressed` build every
-    level with `default=default`), but for a tensor-owned fiber it is the owning NON-LEAF
-    rank's default — the class `Fiber`, not a value: `none` (the returned nest is filled with
-    class objects). -/
+/-- `_fillempty`'s leaf default (after fixes cc544e6, ecc4474):
+    `f = self; while len(f.payloads) > 0 and isinstance(f.payloads[0], Fiber): f = f.payloads[0]`;
+    the descent stops at the leaf level or at a fiber without payloads above it.  Then, for a
+    tensor-owned fiber, the default of the LAST rank of the owning tensor is returned (the leaf
+    default `dflt`); for a free fiber `f.getDefault()`, which is `dflt` too (`_makeFiber` /
+    `fromUncompressed` build every level with `default=default`).  Both legs are kept apart
+    because they are different code. -/
 def chainLeaf {κ : Type} (owned : Bool) (dflt : ν) : (d : Nat) → Tree κ ν (d + 1) → Option ν
   | 0,     _ => some dflt
   | d + 1, f => match (show List (κ × Tree κ ν (d + 1)) from f) with
-                | []     => if owned then none else some dflt
+                | []     => (match owned with
+                             | true  => some dflt     -- last rank's default
+                             | false => some dflt)    -- the fiber's own default
                 | e :: _ => chainLeaf owned dflt d e.2
 
 /-- `_fillempty(shape, level)`: a nest of the remaining shape filled with the leaf
-    default; `leaf = none` stands for a leaf default that is not a value (see `chainLeaf`). -/
+    default (`leaf = none`: no value available — cannot happen after fix ecc4474). -/
 def fillEmpty (leaf : Option ν) : (d : Nat) → List Nat → Option (Nest ν d)
   | 0,     _       => leaf
   | _ + 1, []      => none
